@@ -136,6 +136,11 @@ class Universe:
                 self.holder_list(h).remove(None)
             elif which == 'insertNone':
                 self.holder_list(h).insert(0, None)
+            elif which in ('insertIndexNone', 'insertIndexStr', 'insertIndexFloat'):
+                # an index list.insert refuses, with a task that already is a child of that holder (or, when it has none, any task)
+                kids_ = list(self.holder_list(h))
+                t_ = kids_[-1] if kids_ else self.tasks[0]
+                self.holder_list(h).insert({'insertIndexNone': None, 'insertIndexStr': '1', 'insertIndexFloat': 1.5}[which], t_)
             elif which == 'predAppendNone':
                 T(h % self.m).predecessors.append(None)
             elif which == 'childrenInt':
@@ -243,7 +248,7 @@ def rand_op(u, rnd):
 
     stale = 'stale' if rnd.random() < 0.3 else 'fresh'
     if rnd.random() < 0.02:
-        return ['badArg', rnd.choice(['appendNone', 'removeNone', 'insertNone', 'predAppendNone', 'childrenInt', 'predsInt', 'wbsRemoveNone',
+        return ['badArg', rnd.choice(['appendNone', 'removeNone', 'insertNone', 'insertIndexNone', 'insertIndexStr', 'insertIndexFloat', 'predAppendNone', 'childrenInt', 'predsInt', 'wbsRemoveNone',
                                       'sortInt', 'floordivInt']), holder()]
     k = rnd.randrange(27)
     if k >= 25:
@@ -506,6 +511,19 @@ def _directed_ops(u, rnd):
                 for y in members[:3]:
                     add('stale-owner-orphan', ['setParent', U(t), U(y)])
                 add('stale-owner-orphan', ['chAppend', wi, U(t), 'fresh'])
+    # a task whose stored parent does not list it (only an ill-behaved implementation gets here): put it back under that parent, and bring
+    # a free task with the same id there first
+    for t in T:
+        p = _rawp(t)
+        if p is not None and all(t is not c for c in p.children) and U(p) is not None and U(p) >= 0:
+            add('stale-parent-pointer', ['setParent', U(t), U(p)] if U(p) < m else ['chAppend', U(p), U(t), 'fresh'])
+            add('stale-parent-pointer', ['chAppend', U(p), U(t), 'fresh'])
+            for x in free:
+                if x.id == t.id and x is not t:
+                    add('stale-parent-pointer', ['chAppend', U(p), U(x), 'fresh'])
+            for x in T:
+                if x is not t and x.wbs is None and _rawp(x) is None and (x.id == t.id or any(x.id == d.id for d in _sub(t))):
+                    add('stale-parent-pointer', ['chAppend', U(t), U(x), 'fresh'])
     # well-formed list edits (move with anchor, sort, reorder, insert) and, after them, calls through a façade taken earlier
     for h in list(range(m)) + [m + i for i in range(len(u.wbs))]:
         ks = [U(c) for c in (u.wbs[h - m].roots if h >= m else u.objs[h].children)]
@@ -830,6 +848,8 @@ def judge(prop, case, rec, out):
                     mon['memberIffTasks'] = False
                     info.setdefault('monitor_failures', []).append({'clause': 'memberIffTasks', 'step': i, 'op': st['full_op'], 'tasks': wv['tasks'], 'owned': owned})
         for c in MON_OF[prop]:
+            if c == 'rejectIsRuntime' and st['full_op'][0] == 'badArg' and st['full_op'][1].startswith('insertIndex'):
+                continue      # an index list.insert refuses (TypeError): not one of the rejections C05 says are RuntimeErrors; C15 judges the state
             if c in o['mon'] and not o['mon'][c] and mon[c]:
                 mon[c] = False
                 info.setdefault('monitor_failures', []).append({'clause': c, 'step': i, 'op': st['full_op'], 'impl_out': st['out']})
